@@ -119,6 +119,36 @@ fn same_fields(a: &DltMessage, b: &DltMessage) -> Result<(), String> {
     Ok(())
 }
 
+/// What an output path holds before a command of the families whose case description has no prior state: derived from the
+/// input (so that replays reproduce it) -- absent, empty, the first half of the input, the input followed by 1..4 bytes, the
+/// input followed by a copy of its first part (a longer file of valid messages), junk longer than the input.
+fn derived_prior(data: &[u8], salt: u64) -> Option<Vec<u8>> {
+    let h = (g::cksum(data) as u64).wrapping_mul(2654435761).wrapping_add(salt.wrapping_mul(0x9e37_79b9)) >> 7;
+    match h % 8 {
+        0 | 1 => None,
+        2 => Some(vec![]),
+        3 => Some(data[..data.len() / 2].to_vec()),
+        4 => {
+            let mut v = data.to_vec();
+            v.extend_from_slice(&b"DLT\x01"[..1 + (h / 8 % 4) as usize]);
+            Some(v)
+        }
+        5 | 6 => {
+            let mut v = data.to_vec();
+            let n = if data.is_empty() { 0 } else { (1 + (h / 8) as usize % data.len()).min(4000) };
+            v.extend_from_slice(&data[..n]);
+            if n == 0 {
+                v.extend_from_slice(b"DLT\x01 no message");
+            }
+            Some(v)
+        }
+        _ => {
+            let n = data.len() + 1 + (h / 8 % 5000) as usize;
+            Some((0..n).map(|i| (i as u64).wrapping_mul(h | 1).to_le_bytes()[1]).collect())
+        }
+    }
+}
+
 /// `adlt convert -o a.dlt in.dlt`, `adlt convert -o b.dlt a.dlt`: returns (a, b) or None when the binary is not available
 fn convert_twice(data: &[u8]) -> Option<Result<(Vec<u8>, Vec<u8>), String>> {
     let bin = std::env::var("VERIF_ADLT_BIN").ok()?;
@@ -128,6 +158,14 @@ fn convert_twice(data: &[u8]) -> Option<Result<(Vec<u8>, Vec<u8>), String>> {
     let dir = tempfile::tempdir().ok()?;
     let p = |n: &str| dir.path().join(n);
     std::fs::write(p("in.dlt"), data).ok()?;
+    // the state of the output paths before the commands: a function of the input (C02_export_independent_of_prior_output_content:
+    // it must not matter, so it is not part of the case description)
+    if let Some(c) = derived_prior(data, 0) {
+        std::fs::write(p("a.dlt"), c).ok()?;
+    }
+    if let Some(c) = derived_prior(data, 1) {
+        std::fs::write(p("b.dlt"), c).ok()?;
+    }
     let run = |out: &str, inp: &str| -> Result<(), String> {
         let o = std::process::Command::new(&bin).arg("convert").arg("-o").arg(p(out)).arg(p(inp)).output().map_err(|e| e.to_string())?;
         if !o.status.success() {
@@ -156,6 +194,12 @@ fn convert_export(data: &[u8], always_second: bool) -> BinExport {
     let dir = tempfile::tempdir().ok()?;
     let p = |n: &str| dir.path().join(n);
     std::fs::write(p("in.dlt"), data).ok()?;
+    if let Some(c) = derived_prior(data, 2) {
+        std::fs::write(p("a.dlt"), c).ok()?;
+    }
+    if let Some(c) = derived_prior(data, 3) {
+        std::fs::write(p("b.dlt"), c).ok()?;
+    }
     let run = |out: &str, inp: &str| -> Result<Vec<u8>, String> {
         let o = std::process::Command::new(&bin).arg("convert").arg("-o").arg(p(out)).arg(p(inp)).output().map_err(|e| e.to_string())?;
         if !o.status.success() {
